@@ -52,8 +52,9 @@ func genC20Pure(t *simrt.Tape) c20Pure {
 	// 5 a regex rule that does not compile: it accepts nothing, every time it is consulted)
 	// 6 kind-slice (accepts every slice, a nil one included: its kind is Slice)
 	// 7 equal to one particular pointer (pointers are comparable: only that very pointer is equal to it)
-	pool := []int{0, 1, 2, 3, 4, 5, 6, 7}
-	k := 1 + t.Choose(8)
+	// 8 a regex that also accepts the empty string (^a*$)
+	pool := []int{0, 1, 2, 3, 4, 5, 6, 7, 8}
+	k := 1 + t.Choose(9)
 	for i := 0; i < k; i++ {
 		j := t.Choose(len(pool))
 		p.Patterns = append(p.Patterns, pool[j])
@@ -338,28 +339,30 @@ func (sc *c20Scenario) runPure(s *simrt.Sim, h *Hist) {
 		name string
 		v    interface{}
 		// which pattern kinds accept it (0 kind-int, 1 sum type, 2 equal(42), 3 regex ^ab+$, 4 kind-string); -1 = not asserted
-		acc [8]int
+		acc [9]int
 	}
 	st := c20T{A: 1}
 	st2 := st
 	var nilPtr *c20T
 	probes := []probe{
-		{"int 42", 42, [8]int{1, 0, 1, 0, 0}},
-		{"int 7", 7, [8]int{1, 0, 0, 0, 0}},
-		{"int64 42", int64(42), [8]int{0, 0, 0, 0, 0}},
-		{"string abb", "abb", [8]int{0, 0, 0, 1, 1}},
-		{"string xab", "xab", [8]int{0, 0, 0, 0, 1}},
-		{"string 42", "42", [8]int{0, 0, 0, 0, 1}},
-		{"nil", nil, [8]int{0, 1, 0, 0, 0}},
-		{"typed nil pointer", nilPtr, [8]int{0, -1, 0, 0, 0}},
-		{"typed nil *CompData (what NewCompData returns for mismatching arguments)", fpgo.NewCompData(fpgo.DefProduct(reflect.Int), "no"), [8]int{0, -1, 0, 0, 0}},
-		{"struct", st, [8]int{0, 0, 0, 0, 0}},
-		{"pointer to struct", &st, [8]int{0, 0, 0, 0, 0, 0, 0, 1}},
-		{"another pointer to an equal struct", &st2, [8]int{0, 0, 0, 0, 0}},
-		{"slice", []int{1, 2}, [8]int{0, 0, 0, 0, 0, 0, 1}},
-		{"nil slice", []int(nil), [8]int{0, 0, 0, 0, 0, 0, 1}},
-		{"CompData(string,int)", fpgo.NewCompData(sum, "a", 1), [8]int{0, 1, 0, 0, 0}},
-		{"CompData(int) of another type", fpgo.NewCompData(fpgo.DefProduct(reflect.Int), 5), [8]int{0, 0, 0, 0, 0}},
+		{"int 42", 42, [9]int{1, 0, 1, 0, 0}},
+		{"int 7", 7, [9]int{1, 0, 0, 0, 0}},
+		{"int64 42", int64(42), [9]int{0, 0, 0, 0, 0}},
+		{"string abb", "abb", [9]int{0, 0, 0, 1, 1}},
+		{"string xab", "xab", [9]int{0, 0, 0, 0, 1}},
+		{"string 42", "42", [9]int{0, 0, 0, 0, 1}},
+		{"empty string", "", [9]int{0, 0, 0, 0, 1, 0, 0, 0, 1}},
+		{"string aaa", "aaa", [9]int{0, 0, 0, 0, 1, 0, 0, 0, 1}},
+		{"nil", nil, [9]int{0, 1, 0, 0, 0}},
+		{"typed nil pointer", nilPtr, [9]int{0, -1, 0, 0, 0}},
+		{"typed nil *CompData (what NewCompData returns for mismatching arguments)", fpgo.NewCompData(fpgo.DefProduct(reflect.Int), "no"), [9]int{0, -1, 0, 0, 0}},
+		{"struct", st, [9]int{0, 0, 0, 0, 0}},
+		{"pointer to struct", &st, [9]int{0, 0, 0, 0, 0, 0, 0, 1}},
+		{"another pointer to an equal struct", &st2, [9]int{0, 0, 0, 0, 0}},
+		{"slice", []int{1, 2}, [9]int{0, 0, 0, 0, 0, 0, 1}},
+		{"nil slice", []int(nil), [9]int{0, 0, 0, 0, 0, 0, 1}},
+		{"CompData(string,int)", fpgo.NewCompData(sum, "a", 1), [9]int{0, 1, 0, 0, 0}},
+		{"CompData(int) of another type", fpgo.NewCompData(fpgo.DefProduct(reflect.Int), 5), [9]int{0, 0, 0, 0, 0}},
 	}
 	h.Do("main", "pattern-matching", p.Patterns, func() (interface{}, error) {
 		// ONE PatternMatching object per pattern list is reused for every probe (as a long-lived matcher would be);
@@ -404,6 +407,8 @@ func (sc *c20Scenario) runPure(s *simrt.Sim, h *Hist) {
 					return fpgo.InCaseOfKind(reflect.Slice, eff)
 				case 7:
 					return fpgo.InCaseOfEqual(&st, eff)
+				case 8:
+					return fpgo.InCaseOfRegex("^a*$", eff)
 				}
 				return fpgo.Otherwise(eff)
 			}
@@ -446,7 +451,7 @@ func (sc *c20Scenario) runPure(s *simrt.Sim, h *Hist) {
 						got = fpgo.Either(pr.v, pats...)
 					}
 				}()
-				ctx := fmt.Sprintf("%s of %s against pattern kinds %v (0 kind-int, 1 sum type, 2 equal 42, 3 regex ^ab+$, 4 kind-string, 5 broken regex, 6 kind-slice, 7 equal to one pointer) otherwise=%v", via, pr.name, p.Patterns, p.Otherwise)
+				ctx := fmt.Sprintf("%s of %s against pattern kinds %v (0 kind-int, 1 sum type, 2 equal 42, 3 regex ^ab+$, 4 kind-string, 5 broken regex, 6 kind-slice, 7 equal to one pointer, 8 regex ^a*$) otherwise=%v", via, pr.name, p.Patterns, p.Otherwise)
 				if want >= 0 && p.EffPanic {
 					if pan != "effect-boom" || applied != 1 {
 						bad("pattern-matching", "panic-of-the-matching-effect-not-propagated", fmt.Sprintf("%s, the effect of the first accepting pattern (kind %d) panics: MatchFor returned %v / panicked with %v after applying %d effects; want that panic to reach the caller and no other effect applied", ctx, want, got, pan, applied))
